@@ -420,6 +420,33 @@ def gen_mem(rng, S):
     return out
 
 
+def gen_stream(rng, S):
+    """mem_find_stream: self-overlapping patterns over a two-letter alphabet, fed in tiny chunks so that a
+    partial match is carried across chunk borders and has to be re-aligned ("aaab" in "aaa"+"ab")."""
+    out = []
+    for _ in range(2500 * S):
+        wn = rng.range(1, 7)
+        what = bytes(rng.choice(b"ab") for _ in range(wn))
+        n = rng.range(1, 40)
+        if rng.chance(1, 2):
+            buf = bytearray(rng.choice(b"ab") for _ in range(n))
+            if n > wn:
+                st = rng.below(n - wn)
+                buf[st:st + wn] = what
+            buf = bytes(buf)
+        else:
+            buf = bytes(rng.choice(b"ab") for _ in range(n))
+        chunks = []
+        left = n
+        while left > 0:
+            c = rng.choice([1, 1, 2, 3, rng.range(1, 8)])
+            chunks.append(c)
+            left -= c
+        out.append((U.c_mem(9, 0, 0, 0, 0, buf, what, chunks), M("none", "mem_find_stream", lcls(n) + "/what%d" % wn,
+                                                                 "chunks%d" % min(len(chunks), 9))))
+    return out
+
+
 def gen_replace(rng, S):
     out = []
     k = 0
@@ -432,6 +459,10 @@ def gen_replace(rng, S):
         for _ in range(cnt):
             a = bytes(rng.choice(alpha) for _ in range(rng.choice([0, 1, 1, 2, 3])))
             b = bytes(rng.choice(alpha) for _ in range(rng.choice([0, 1, 2, 4, 9])))
+            # keep the pattern set prefix-free: two patterns matching at the same position would make the
+            # result depend on an undocumented tie-break, and the expected final size ambiguous
+            if a and any(p and (p.startswith(a) or a.startswith(p)) for p, _ in pairs):
+                a = b""
             pairs.append((a, b))
         use_tmp = cnt > 31 or rng.chance(1, 4)
         if cnt > 31 and rng.chance(1, 8):
@@ -656,7 +687,7 @@ def gen_bt(rng, S):
         out.append((U.c_bt(b, rng.choice([b"a", b"k", b"ab", b"zz"]), rng.chance(1, 8)),
                     M("bt", "bt_en_decode", lcls(len(b)), "deep" if len(b) > 1000 else "")))
     # huge length prefixes: lengths whose sum with the header size wraps around 2^64
-    ks = [0, 1, 2, 20, 21, 22, 23] if S == 1 else list(range(0, 32))
+    ks = [0, 1, 2, 20, 21, 22, 23] if S == 1 else list(range(0, 28))
     for kk in ks:
         for shape in (b"l%d:e", b"%d:", b"d%d:i1ee", b"li1e%d:e"):
             b = shape % ((1 << 64) - kk)
@@ -737,18 +768,21 @@ def gen_misc(rng, S):
 
 
 FAMILIES = [
-    # name, generator, shards
-    ("b64enc", gen_b64enc, 1), ("b64dec", gen_b64dec, 3), ("hex", gen_hex, 2), ("num2str", gen_num2str, 4),
-    ("str2num", gen_str2num, 2), ("utf8", gen_utf8, 1), ("asn1", gen_asn1, 2), ("mem", gen_mem, 2),
-    ("replace", gen_replace, 2), ("xmlcodec", gen_xmlcodec, 3), ("xmlget", gen_xmlget, 3), ("ini", gen_ini, 2),
-    ("bt", gen_bt, 3), ("args", gen_args, 2), ("line", gen_line, 1), ("crc", gen_crc, 1), ("misc", gen_misc, 1),
+    # name, generator, shards (quick), workload scale in the quick tier (thorough = 12x that, 4x the shards)
+    ("b64enc", gen_b64enc, 1, 1), ("b64dec", gen_b64dec, 3, 1), ("hex", gen_hex, 1, 2), ("num2str", gen_num2str, 4, 1),
+    ("str2num", gen_str2num, 3, 2), ("utf8", gen_utf8, 1, 3), ("asn1", gen_asn1, 2, 2), ("mem", gen_mem, 2, 3),
+    ("stream", gen_stream, 1, 2), ("replace", gen_replace, 2, 1), ("xmlcodec", gen_xmlcodec, 3, 1),
+    ("xmlget", gen_xmlget, 3, 1), ("ini", gen_ini, 2, 1), ("bt", gen_bt, 3, 1), ("args", gen_args, 2, 1),
+    ("line", gen_line, 1, 3), ("crc", gen_crc, 1, 1), ("misc", gen_misc, 1, 3),
 ]
-FAM = {n: g for n, g, _ in FAMILIES}
+FAM = {n: (g, q) for n, g, _, q in FAMILIES}
+THOROUGH_SCALE = 12
+THOROUGH_SHARDS = 4
 
 
 def family_cases(fam, tier):
-    S = 1 if tier == "quick" else 8
-    return FAM[fam](Rng(common.seed(), PROP, fam), S)
+    g, q = FAM[fam]
+    return g(Rng(common.seed(), PROP, fam), q if tier == "quick" else q * THOROUGH_SCALE)
 
 
 # ---------------------------------------------------------------------------
@@ -1002,16 +1036,16 @@ def run(tier):
     for must in ("gcc-asu-O1", "clang-asu-O1"):
         if must not in exes:
             report.inconclusive.append("variant %s did not build: %s" % (must, report.builds.get(must)))
-    mult = 1 if tier == "quick" else 3
+    mult = 1 if tier == "quick" else THOROUGH_SHARDS
     jobs = []
     for vname, exe in exes.items():
         liveness(exe, vname, report)
-        for fam, _, nsh in FAMILIES:
+        for fam, _, nsh, _q in FAMILIES:
             nsh *= mult
             for sh in range(nsh):
                 jobs.append((vname, specs[vname], exe, fam, sh, nsh, tier))
     # big families first
-    jobs.sort(key=lambda j: -dict((n, s) for n, _, s in FAMILIES)[j[3]])
+    jobs.sort(key=lambda j: -dict((f[0], f[2]) for f in FAMILIES)[j[3]])
     bestw = {}
     for part in common.parallel(worker, jobs):
         for k, w in part["violations"]:
